@@ -4,7 +4,8 @@ ENTRIES = {
             "bounded exhaustive enumeration of query terms x domain contents on the real engine vs a brute-force first-order evaluator",
             "Every EQL condition tree with <=3 (thorough: 4) leaves over a 5-atom alphabet, with every and_/or_ labelling and "
             "not_ above any node, plus one feature atom per vocabulary item of the statement in every <=2-leaf context, "
-            "quantifiers over predicates and pairs of quantifiers (same and different quantified variables), flatten and nested "
+            "quantifiers over predicates and pairs of quantifiers (same and different quantified variables), method calls with "
+            "symbolic arguments, flatten and nested "
             "an/the sub-queries, and queries in which one expression object occurs at several positions, is built through "
             "the public API and evaluated by the real engine "
             "over a family of domain contents (all valuations, a value-equal twin, every pair of sub-domains of a "
@@ -61,10 +62,13 @@ ENTRIES = {
             "DESIGN.md section 3 C13"),
     "C14": ("model_checking",
             "differential exploration: every garbage-producing prefix history x every assertion suffix vs the same suffix on a cleared graph",
-            "All prefix histories to depth 4 (x22 suffixes) and depth 5 (x6 core suffixes) of creating, relating, dropping and "
+            "All prefix histories to depth 4 (x28 suffixes, some with a sweep between creation and assertion) and depth 5 (x8 core suffixes) of creating, relating, dropping and "
             "sweeping persons/companies/CEOs, closed by dropping every prefix object with and without a final sweep, are "
             "followed by an assertion suffix on fresh objects; graph relations and field contents about the suffix objects "
-            "must equal those of the suffix alone on a cleared graph and the reference closure.",
+            "must equal those of the suffix alone on a cleared graph and the reference closure. Histories with a birth after an "
+            "unswept death also run under the identity adversary (mc/idadv.py). A second family keeps objects alive across the "
+            "deaths of others (units with a transitive part_of, depth 5 from four start populations): after every operation "
+            "no field of a live object holds a dead entry, nothing crashes, and the closure among live objects is present.",
             "Node-index recycling is exercised deterministically (rustworkx LIFO free list); CPython address reuse is provoked "
             "by the drop-then-create prefixes (reliably in practice, seeds c13-2/c14-2 are caught on every run) but not forced.",
             "DESIGN.md section 3 C14"),
